@@ -263,7 +263,39 @@ class Interp(ExprMixin, CallMixin):
             if name in env.vars:
                 return env.vars[name]
             addr = env.parent
+        v = self._closure_constant(frame.fi, name)
+        if v is not None:
+            return v
         return self.global_value(frame.fi.module, name)
+
+    def _closure_constant(self, fi, name: str):
+        """A free variable of a closure that is interpreted on its own (the generated __setattr__/__delattr__/...):
+        when the enclosing function binds the name exactly once to `self.<member>` / `<Class>.<member>` of its class
+        (a static helper or a constant class attribute) or to a constant, that is its value."""
+        import ast as _ast
+        outer = getattr(fi, "parent", None)
+        hops = 0
+        while outer is not None and hops < 3:
+            hops += 1
+            binds = [n.value for n in _ast.walk(outer.node) if isinstance(n, _ast.Assign) and len(n.targets) == 1
+                     and isinstance(n.targets[0], _ast.Name) and n.targets[0].id == name]
+            if len(binds) == 1:
+                e = binds[0]
+                if isinstance(e, _ast.Constant):
+                    return Const(e.value)
+                ci = outer.cls
+                if ci is not None and isinstance(e, _ast.Attribute) and isinstance(e.value, _ast.Name) and e.value.id in ("self", "cls", ci.name):
+                    c_, m_ = self.p.lookup_method(ci, e.attr)
+                    if isinstance(m_, list) and m_ and m_[0].kind() == "static":
+                        return FuncV(m_[0], None)
+                    if m_ is not None and not isinstance(m_, list):
+                        try:
+                            return Const(_ast.literal_eval(m_))
+                        except Exception:
+                            return None
+                return None
+            outer = getattr(outer, "parent", None)
+        return None
 
     def global_value(self, mi, name: str) -> V:
         ck = (mi.name, name)
